@@ -609,6 +609,10 @@ class Bounds:
         # non-negative lower bounds; otherwise fall back to the type range
         return B(r.lo if r.lo is not None else tr[0], r.hi if r.hi is not None else tr[1], r.ubs, r.lbs)
 
+    def ev_at(self, n, point):
+        """bounds of (lvalue) node n as if it were read at `point`"""
+        return self.ev(n, point)
+
     # ---- queries -----------------------------------------------------------------------------
     def le_const(self, n, c, point=None):
         b = self.ev(n, point)
